@@ -434,12 +434,29 @@ def _write_log(path: str, space, y, inst_name: str) -> None:
             kv.key_value("lastImprovementFE", 1)
             kv.key_value("lastImprovementTimeMillis", 1)
         with logger.key_values(SECTION_SETUP) as kv:
-            kv.key_value("p.name", "ProcessWithoutSearchSpace")
+            kv.key_value("p.name", "LoggingProcessWithSearchSpace")
+            kv.key_value("a.name", "rls_swap2orFlip")
+            # like a real run: the encoding logs the instance under its own
+            # scope as well, before the solution space does
+            with kv.scope("g") as sg:
+                sg.key_value("name", "ibf2")
+                with sg.scope("inst") as si:
+                    si.key_value("name", inst_name)
             with kv.scope("y") as sc:
                 space.log_parameters_to(sc)
+            with kv.scope("x") as sx:
+                sx.key_value("name", "signedPermOfString")
+                sx.key_value("baseString", "1;1;2")
         log_sys_info(logger)
+        with logger.text("RESULT_X") as txt:
+            txt.write(";".join(str(((-1) ** i) * (1 + i % 3))
+                               for i in range(len(y))))
         with logger.text(SECTION_RESULT_Y) as txt:
             txt.write(space.to_str(y))
+        if len(y) % 2 == 0:
+            # sections after the result (e.g. the FFA table) must not matter
+            with logger.text("H") as txt:
+                txt.write("1;2;3;4")
 
 
 def execute(doc: dict) -> dict:
